@@ -405,6 +405,10 @@ func c02Run(in c02Input, snap *slog.VerifRegistry) (o c02Obs) {
 	historyPrelude(len(in.Msg)*11 + len(in.Args)*7 + in.Sev*3 + len(in.Ops) + in.Level)
 	events = nil
 	stdDelta()
+	if (len(in.Msg)+len(in.Args)+in.Sev+len(in.Ops))%5 == 0 { // a fifth of the cases: destinations that take the record whole and misreport the count
+		successSkew = func(w int, n int) int { return []int{-1, 0, 3}[(w+n)%3] }
+		defer func() { successSkew = nil }()
+	}
 	if in.reentrant() {
 		// the destinations log a record of their own (another logger, another format, a discarding
 		// writer) while they are written to: the payload they were handed must not change under them
